@@ -814,6 +814,52 @@ fn enumerate_schemas_base(thorough: bool) -> Vec<Schema> {
         }
     }
 
+    // ---- G-many: more fields than one digit of a positional identifier (_10 sorts before _2), more fields than an
+    // 8-bit counter holds
+    {
+        let twelve = |skip_at: Option<usize>| -> Vec<FieldS> {
+            (0..12u32)
+                .map(|i| {
+                    let mut f = fld(i, if i % 3 == 1 { FTy::OptU8 } else if i % 3 == 2 { FTy::Str } else { FTy::U8 });
+                    if skip_at == Some(i as usize) {
+                        f.ty = FTy::U8;
+                        f.skip = true;
+                    }
+                    f
+                })
+                .collect()
+        };
+        for enc in [None, Some(Enc::Map)] {
+            b.st("G-many", Shape::Tuple, enc, None, twelve(None));
+            b.st("G-many", Shape::Named, enc, None, twelve(None));
+            b.st("G-many", Shape::Tuple, enc, None, twelve(Some(10)));
+            b.push(
+                "G-many",
+                false,
+                Kind::Enum(EnumS {
+                    enc,
+                    tag: None,
+                    index_only: false,
+                    variants: vec![
+                        VariantS { idx: 0, shape: Shape::Tuple, enc: None, tag: None, fields: twelve(None) },
+                        VariantS { idx: 1, shape: Shape::Unit, enc: None, tag: None, fields: vec![] },
+                        VariantS { idx: 2, shape: Shape::Named, enc: None, tag: None, fields: twelve(None) },
+                        VariantS { idx: 3, shape: Shape::Tuple, enc: None, tag: None, fields: twelve(Some(2)) },
+                    ],
+                }),
+            );
+        }
+        // 257 fields: the map header counts the present ones; in array encoding the last present index decides
+        let many = |opt_from: u32| -> Vec<FieldS> { (0..257u32).map(|i| fld(i, if i >= opt_from { FTy::OptU8 } else { FTy::U8 })).collect() };
+        b.st("G-many", Shape::Named, Some(Enc::Map), None, many(255));
+        b.st("G-many", Shape::Named, Some(Enc::Array), None, many(254));
+        b.push(
+            "G-many",
+            false,
+            Kind::Enum(EnumS { enc: Some(Enc::Map), tag: None, index_only: false, variants: vec![VariantS { idx: 0, shape: Shape::Named, enc: None, tag: None, fields: many(256) }, VariantS { idx: 1, shape: Shape::Unit, enc: None, tag: None, fields: vec![] }] }),
+        );
+    }
+
     // ---- G-tag: tags on the type and on fields x optional x encoding
     for stag in [None, Some(1u64), Some(256)] {
         for t0 in [None, Some(24u64)] {
